@@ -40,7 +40,7 @@ def cases(tier, seed):
                "fseed": int(rng.integers(0, 10**6)), "placement": gen.FACE_PLACEMENTS[i % len(gen.FACE_PLACEMENTS)],
                "pseed": int(rng.integers(0, 10**6))}
     for i in range(n_mesh):
-        yield {"kind": "mesh", "mesh": gen.random_mesh(rng, 60 if tier == "quick" else 250, families=["voronoi", "merged", "cubed_sphere", "latlon_patch", "polyhedron", "fine_patch"])}
+        yield {"kind": "mesh", "mesh": gen.random_mesh(rng, 60 if tier == "quick" else 250, families=["voronoi", "merged", "cubed_sphere", "latlon_patch", "polyhedron", "fine_patch", "sample"])}
 
 
 # ---------------------------------------------------------------- oracle
